@@ -30,6 +30,8 @@ THEOREMS = [
     "JanetModel.Props.C05.values_pass_unchanged_in_order",
     "JanetModel.Props.C05.first_resume_value_bound",
     "JanetModel.Props.C05.first_resume_enters",
+    "JanetModel.Props.C05.named_params_at_first_resume",
+    "JanetModel.Props.C05.named_only_nonnil_first_value_fails",
     "JanetModel.Props.C05.deliver_binds_value",
     "JanetModel.Props.C05.unwind_passes",
     "JanetModel.Props.C05.signal_delivered_to_nearest_accepting",
@@ -227,6 +229,82 @@ def guard_pass(ctx, exe, after, n, broken):
         broken.append("guard correspondence (counter / guard trips) model vs impl: %d of %d trees differ (first: limit %d)" % (cov["guard_diffs"], cov["guard_trees"], trees[i][2]))
         ctx.broken.append(broken[-1])
         cov["guard_first_diff"] = {"janet": srcs[i], "model_line": lines[i], "impl": split_line(impl[i])[0], "model": split_line(model_out[i])[0]}
+    return cov
+
+
+NAMED_PRE = r'''
+(defn show [x] (cond (nil? x) "nil" (keyword? x) (string ":" x) (string? x) (string "\"" (string/replace-all " " "_" x) "\"") (string x)))
+(defn t [id f v]
+  (def fb (fiber/new f :a))
+  (def r (resume fb v))
+  (print id " " (fiber/status fb) " " (if (tuple? r) (string/join (map show r) ",") (string/replace-all " " "_" (string r)))
+         " " (string/join (map string (filter keyword? (disasm f :constants))) ","))
+  (flush))
+'''
+
+
+def named_pass(ctx, exe, janet, broken):
+    """(D''') `&named` parameters at the first resume: functions `(fn [pos.. &named k1 .. kn] [pos.. k1 .. kn])` with arity
+    0 / 1 / 2 (positional ones `&opt` or required), 1-3 keys, first value nil / number / keyword / string, run by the
+    implementation and by Fiber/Named.lean firstResumeNamed (key order = the compiled one, read from `(disasm f :constants)`)."""
+    cov = {"named_cases": 0, "named_diffs": 0, "named_entry_errors": 0}
+    if exe is None:
+        return cov
+    cases = []
+    r = ctx.rng.fork("named")
+    names = ["a", "b", "c", "zz", "k9", "name", "q"]
+    for shape, ar, mn, plist in (("none", 0, 0, ""), ("req", 1, 1, "x "), ("opt", 1, 0, "&opt x "), ("opt2", 2, 0, "&opt x y "), ("reqopt", 2, 1, "x &opt y ")):
+        for nk in (1, 2, 3):
+            for v, va in (("nil", "n"), ("7", "i7"), (":kv", "kkv"), ('"s"', None)):
+                ks = []
+                while len(ks) < nk:
+                    c = names[r.below(len(names))]
+                    if c not in ks:
+                        ks.append(c)
+                pos = [x for x in plist.replace("&opt", "").split()]
+                cases.append((ar, mn, v, va, ks, "(fn [%s&named %s] [%s])" % (plist, " ".join(ks), " ".join(pos + ks))))
+    src = NAMED_PRE + "\n".join("(t %d %s %s)" % (i, c[5], c[2]) for i, c in enumerate(cases)) + "\n"
+    fd, path = tempfile.mkstemp(prefix="c05n-", suffix=".janet", dir="/var/tmp")
+    with os.fdopen(fd, "w") as f:
+        f.write(src)
+    try:
+        rc, out, err = run_cmd([janet, path], timeout=120, env=ENV)
+    finally:
+        os.unlink(path)
+    impl = {}
+    for l in out.decode(errors="replace").splitlines():
+        p = l.split(" ")
+        if p and p[0].isdigit() and len(p) >= 4:
+            impl[int(p[0])] = p[1:]
+    lines, idx = [], []
+    for i, c in enumerate(cases):
+        if i in impl and c[3] is not None:          # string payloads: compared for status only (no string atoms in the driver protocol)
+            lines.append("named %d %d %s %s" % (c[0], c[1], c[3], impl[i][2] or "-"))
+            idx.append(i)
+    mo = ctx.model(lines, exe=exe)
+    first = None
+    for i, m in zip(idx, mo):
+        cov["named_cases"] += 1
+        st, res = impl[i][0], impl[i][1]
+        want = ("dead " + m[3:]) if m.startswith("ok ") else ("error " + m[4:])
+        if m.startswith("err "):
+            cov["named_entry_errors"] += 1
+        if st + " " + res != want:
+            cov["named_diffs"] += 1
+            first = first or (cases[i][5], cases[i][2], st + " " + res, want)
+    for i, c in enumerate(cases):
+        if c[3] is None and i in impl:
+            cov["named_cases"] += 1
+            want_err = c[0] == 0
+            if (impl[i][0] == "error") != want_err:
+                cov["named_diffs"] += 1
+                first = first or (c[5], c[2], " ".join(impl[i][:2]), "error at entry" if want_err else "dead")
+    if len(impl) != len(cases):
+        broken.append("&named pass: implementation printed %d of %d cases (rc=%r): %s" % (len(impl), len(cases), rc, err.decode(errors="replace")[-200:]))
+    if first:
+        broken.append("&named first-resume correspondence model vs impl: %d of %d cases differ (first: %s resumed with %s: impl `%s`, model `%s`)"
+                      % (cov["named_diffs"], cov["named_cases"], first[0], first[1], first[2], first[3]))
+        ctx.broken.append(broken[-1])
     return cov
 
 
@@ -449,6 +527,8 @@ def run(ctx, only=None):
     ctx.say("guard pass %r" % {k: v for k, v in gcov.items() if k != "guard_first_diff"})
     scov = sched_pass(ctx, exe, janet, (600 if quick else 6000) * (3 if broken else 1), broken) if pre is not None else {}
     ctx.say("task pass %r" % {k: v for k, v in scov.items() if k != "sched_first_diff"})
+    ncov = named_pass(ctx, exe, janet, broken) if pre is not None else {}
+    ctx.say("&named pass %r" % ncov)
     # raw janet scenarios (regressions of past findings), run under ASan
     scen = 0
     if os.path.isdir(CORPUS):
@@ -497,6 +577,7 @@ def run(ctx, only=None):
         "model_halt_kinds": halts, "correspondence_diffs": len(diffs), "crashes": len(crashes),
         "guard_pass": {k: v for k, v in gcov.items() if k != "guard_first_diff"},
         "task_pass": {k: v for k, v in scov.items() if k != "sched_first_diff"},
+        "named_pass": ncov,
         "oracle_violations": len(oracle_bad), "oracle_adjacency_hits_model_agrees": [(i, b[1][:200]) for i, b in unconfirmed[:10]], "oracle_checks": stats, "generator_op_mix": opmix,
     }
     ctx.say("halts %r diffs %d oracle_bad %d stats %r" % (halts, len(diffs), len(oracle_bad), stats))
